@@ -99,6 +99,25 @@ class Collector:
         return self
 
 
+def _worker_exception(c, func, it, e, pidname):
+    """an exception that escaped a worker: raised from inside the library (its innermost frames are bioscrape's) on a case the
+    harness built -> the implementation failed from inside on an input the check treats as valid: a violation of class
+    <pid>/impl-exception (replayable); anything else is an error of the harness itself. Returns True to continue with the next item."""
+    tb = traceback.extract_tb(e.__traceback__)
+    here = os.path.dirname(os.path.abspath(__file__))
+    harness_idx = [i for i, fr in enumerate(tb) if os.path.abspath(fr.filename).startswith(here)]
+    inner = tb[(harness_idx[-1] + 1) if harness_idx else 0:]
+    from_library = any(('bioscrape' in fr.filename or fr.filename.endswith('.pyx') or 'lineage' in os.path.basename(fr.filename)) for fr in inner)
+    if from_library and not isinstance(e, (KeyboardInterrupt, SystemExit, MemoryError)):
+        where = next((fr for fr in reversed(inner) if 'bioscrape' in fr.filename or fr.filename.endswith('.pyx')), inner[-1])
+        c.violation('%s/impl-exception/%s/%s' % (pidname, getattr(func, '__name__', 'worker'), type(e).__name__),
+                    'the implementation raised %r (in %s, %s) on a case the check treats as valid' % (e, os.path.basename(where.filename), where.name),
+                    dict(func='%s:%s' % (func.__module__, func.__name__), crash_item=jsonable(it)))
+        return True
+    c.harness_error('worker raised on item %s: %r\n%s' % (str(it)[:300], e, traceback.format_exc()[-1500:]))
+    return False
+
+
 def _run_items(func, items):
     c = Collector()
     for it in items:
@@ -160,8 +179,8 @@ def pmap(func, items, into, nshards=None, nproc=None, item_cpu_s=None):
                         try:
                             func(c, it)
                         except BaseException as e:
-                            c.harness_error('worker raised on item %s: %r\n%s' % (str(it)[:300], e, traceback.format_exc()[-1500:]))
-                            break
+                            if not _worker_exception(c, func, it, e, pidname):
+                                break
                     data = pickle.dumps(c, protocol=pickle.HIGHEST_PROTOCOL)
                     with os.fdopen(w, 'wb') as f:
                         f.write(data)
